@@ -258,6 +258,16 @@ def check(prog, rep, tier):
     # ------------------------------------------------------------------ single source of geometry
     for ctx in ("BloomFilter", "BloomFilterOnDisk", "CountingBloomFilter"):
         sv = prog.method(ctx, "_set_values")
+        # what is remembered as est_elements is the very value the geometry was derived from (a reload / union re-derives from it)
+        for p in paths(prog, ctx, sv):
+            if p.exit[0] != "return":
+                continue
+            v = p.fields.get((SELF, "_est_elements"))
+            if v is None or canon(strip_epochs(v)) != ("p", "est_els"):
+                rep.bad("C07.single-source", f"{ctx}._set_values", f"est_elements = {nshow(v) if v else '?'}",
+                        f"_set_values remembers {nshow(v) if v else 'nothing'} as est_elements while the geometry it is handed was derived from est_els itself: "
+                        "wherever the two differ, a reload or a set operation re-derives a different number of bits", sv.where())
+                break
         for f in mro_methods(prog, ctx):
             if f.prop:
                 continue
@@ -296,6 +306,7 @@ MUTANTS = [
     Mutant("ln2^2 constant mistyped", _B, replace_expr("BloomFilter", "_get_optimized_params", "0.4804530139182", "0.4804530139812"), rule="C07.bloom"),
     Mutant("hashes truncated instead of rounded", _B, replace_expr("BloomFilter", "_get_optimized_params", "int(round(0.6931471805599453 * m_bt / estimated_elements))", "int(0.6931471805599453 * m_bt / estimated_elements)"), rule="C07.bloom"),
     Mutant("zero-hash guard removed", _B, del_stmt("BloomFilter", "_get_optimized_params", "if number_hashes == 0"), rule="C07.bloom"),
+    Mutant("_set_values remembers the truncated est_elements", _B, replace_stmt("BloomFilter", "_set_values", "self._est_elements = est_els", "self._est_elements = int(est_els)"), rule="C07.single"),
     Mutant("on-disk _load computes n_bits locally", _B, replace_stmt("BloomFilterOnDisk", "_load", "self._set_values(est_els, fpr, n_hashes, n_bits, hash_function)", "self._set_values(est_els, fpr, n_hashes, n_bits + 1, hash_function)"), rule="C07.single"),
     Mutant("_parse_footer returns bits derived elsewhere", _B, replace_stmt("BloomFilter", "_parse_footer", "return (int(est_elements)", "return (int(est_elements), int(els_added), float(fpr), int(n_hashes), int(e_elms) * 8)"), rule="C07.single"),
     Mutant("_set_error_rate derives the size before storing the rate", _CK,
